@@ -128,7 +128,10 @@ func gh_secWrote[K comparable, V any](e *Entry[K, V]) bool { panic("ghost") }
 func gh_setFailures() real { panic("ghost") }
 func gh_asyncErrs() real   { panic("ghost") }
 
+// C14: the tier's copy is deleted in the critical section of the shard write lock that removes (or refuses to
+// promote) the memory copy, so no concurrent promotion can put the deleted value back
 func ext_internal_SecondaryCache_Delete[K comparable](sc any, key K) (err error) {
+	requires("locked", heldShard())
 	set(gh_secDeletes(key), gh_secDeletes(key)+1)
 	return
 }
